@@ -65,7 +65,7 @@ Definition check_event (st : store) (e : event) : bool * store :=
       | Err, Some _ => (false, st)
       end
   | EGet u obs => (res_eqb (deq secret_eq_dec) (srv_get st u) obs, step st HRead)
-  | EAttrs v u obs => (res_eqb (list_eqb (deq rattr_eq_dec)) (srv_attrs v st u) obs, step st HRead)
+  | EAttrs v u obs => (res_eqb (list_eqb (deq rattr_eq_dec)) (get_attributes v st u) obs, step st HRead)
   | EAttrList v u obs => (res_eqb (list_eqb Nat.eqb) (srv_attr_list v st u) obs, step st HRead)
   | ERow u oc obs =>
       (match find_row u (s_rows st) with
@@ -85,6 +85,25 @@ Definition check_history (l : list event) : bool := check_from store0 l.
 Fixpoint first_bad_from (st : store) (i : Z) (l : list event) : option Z :=
   match l with [] => None | e :: r => let (b, st') := check_event st e in if b then first_bad_from st' (i + 1) r else Some i end.
 Definition first_bad (l : list event) : option Z := first_bad_from store0 0 l.
+
+(* what the model answers at event i (for replay files) *)
+Inductive answer := AReg (r : res Z) | AGet (r : res secret) | AAttrs (r : res (list rattr)) | AList (r : res (list nat))
+                  | ARow (r : option prow) (otype_col : option Z) | ANone.
+Definition model_answer (st : store) (e : event) : answer :=
+  match e with
+  | ERegister v o n s l _ => AReg (match srv_register v o n s l st with Ok (_, u) => Ok u | Err => Err end)
+  | EGet u _ => AGet (srv_get st u)
+  | EAttrs v u _ => AAttrs (get_attributes v st u)
+  | EAttrList v u _ => AList (srv_attr_list v st u)
+  | ERow u _ _ => ARow (option_map row_view (find_row u (s_rows st))) (option_map (fun r => otype_of (p_class r)) (find_row u (s_rows st)))
+  | _ => ANone
+  end.
+Fixpoint answer_from (st : store) (i : Z) (l : list event) : answer :=
+  match l with
+  | [] => ANone
+  | e :: r => if i =? 0 then model_answer st e else answer_from (snd (check_event st e)) (i - 1) r
+  end.
+Definition answer_at (l : list event) (i : Z) : answer := answer_from store0 i l.
 
 (* the two conversions of ObjectFactory observed in isolation (client side) *)
 Inductive ccase :=
